@@ -648,7 +648,17 @@ func (m *Manager) persistState() error {
 		return err
 	}
 
-	return os.WriteFile(m.stateFile, data, 0600)
+	// Write a temporary file and rename it over the state file: a crash during
+	// the write leaves the previous state in place instead of a truncated file.
+	tmpFile := m.stateFile + ".tmp"
+	if err := os.WriteFile(tmpFile, data, 0600); err != nil {
+		return err
+	}
+	if err := os.Rename(tmpFile, m.stateFile); err != nil {
+		os.Remove(tmpFile)
+		return err
+	}
+	return nil
 }
 
 // LoadState loads persisted state from disk.
